@@ -100,6 +100,15 @@
 //     LAST block, whose stores / victim account make a two-child branch node of its
 //     storage trie / of the account trie collapse (collapse.go, World.Collapse); it is
 //     drawn after everything else, so worlds drawn without it are unchanged.
+//     BigWithdrawals and LateDestruct (opt-in, used by C32; bigwithdrawals.go,
+//     latedestruct.go) are drawn after Collapse, in that order: hostile withdrawal
+//     amounts (full exits, around 2^64/10^9 gwei, 2^64-1, arbitrary), and a contract
+//     created by one transaction and made to SELFDESTRUCT by later transactions of
+//     the same block (World.Late). A NEW option must be drawn after these, at the end
+//     of Draw, and must be off by default.
+//   - TxPlan.RefCreate/RefData let a plan call (or pass as calldata) the address
+//     created by an earlier creation plan; World.Build resolves it exactly
+//     (Built.Created) and skips the plan ("ref-not-created") if the creation was skipped.
 //   - Transactions without the chain maker: draw plans with World.DrawPlan and turn
 //     them into signed transactions with Materialize(plan, &Env{...}) against any
 //     StateView (GetBalance/GetNonce - a *state.StateDB satisfies it); Env carries the
